@@ -637,11 +637,12 @@ func judgeValueGroup(rep *Report, gid string, cases []c13Case, pr *ProgResult) {
 			}
 			return
 		case "noclaim":
-			rep.NoClaim++
 			if rejected {
+				rep.NoClaim++
 				return
 			}
-			// accepted: the accepted-path oracle applies
+			// accepted: the accepted-path oracle applies (function values are compared by
+			// calling them)
 		case "accept":
 			if rejected {
 				violate(c, "call-free expression rejected: "+c.V.Expr, dt+"\n"+pr.GenStderr)
@@ -670,7 +671,7 @@ func judgeValueGroup(rep *Report, gid string, cases []c13Case, pr *ProgResult) {
 		}
 	}
 	for _, c := range cases {
-		if c.Class != "accept" {
+		if c.Class != "accept" && c.Class != "noclaim" {
 			continue
 		}
 		evs := byInj[fmt.Sprintf("Init%d", c.ID)]
@@ -726,9 +727,7 @@ func judgeValueGroup(rep *Report, gid string, cases []c13Case, pr *ProgResult) {
 		if len(addrs) > 1 {
 			rep.Count("pointer_stable_across_calls", 1)
 		}
-		if c.Class == "accept" {
-			rep.Held(sigOf(c))
-		}
+		rep.Held(sigOf(c))
 	}
 }
 
